@@ -216,6 +216,11 @@ def judge_c14(cid, parts, il, ml, cnt, machinery, samples, distinct):
                 samples.append(dict(regex=_txt(pat), text=_txt(t), result=arb,
                                     arbiter="Go regexp" if go_arb else "Regex.findAll (Lean)"))
             continue
+        if runs[i] == "DIVERGE":
+            # the step budget of the harness was exceeded: catastrophic backtracking (e.g. `(x+?)+\\1` on a text that
+            # does not match) is a long search, not a wrong one; inconclusive here, termination is C10's subject
+            cnt["budget_exceeded_inconclusive"] += 1
+            continue
         cnt["run_mismatch"] += 1
         observable = True
         same_spans = spans_only(runs[i]) == sp
@@ -277,7 +282,7 @@ def escalate(ctx, drifts, cnt, machinery):
 
 def run(ctx, spec):
     cases, impl, model, stats = S.gen_and_run(ctx, "C14")
-    cnt = dict(regexes=0, pairs=0, pairs_with_match=0, go_arbitrated_pairs=0, lean_arbitrated_pairs=0,
+    cnt = dict(budget_exceeded_inconclusive=0, regexes=0, pairs=0, pairs_with_match=0, go_arbitrated_pairs=0, lean_arbitrated_pairs=0,
                bridge_validated_pairs=0, bridge_mismatch=0, arbiter_second_opinion_diff=0, run_mismatch=0,
                compile_rejected=0, parse_tree_diff=0, parse_same=0, spec_vs_regex_diff=0, malformed=0,
                malformed_accepted=0, malformed_rejected=0, malformed_model_panic_recovered=0, malformed_tree_drift=0,
